@@ -4,6 +4,21 @@ Explicit-state BFS (replay based, mc.engine.bfs) over histories of frame arrival
 output:CONTROLLER flows), packet-outs and flow-mods naming buffers (live, stale, bogus ids) and
 set-config, on a real SoftwareSwitch behind the byte-level connection, for every pool size in the
 bound.  Reference: a dict id -> frame bytes.
+
+The alphabet is split into PROFILES, each explored by its own BFS (same world, same oracle, different
+operation sets), so that a family of cases does not multiply with every other family:
+  base    the histories of the design (all frame kinds, all release forms, set-config)
+  sync    delivery mode "the controller answers INSIDE the send() of the packet-in": every operation that makes the
+          switch send a packet-in x every buffer-referencing reaction (naming the id just announced, the id being
+          released, an older id; or a packet-out that allocates), handled by the switch while the call that sent the
+          packet-in is still on its stack.  The reference is sequential: [operation; reaction].
+  ports   ingress-port configuration (port-mod, one config bit at a time) x every way a frame reaches the controller
+  table   packet-out with data through output:TABLE in every variant: table miss / hit of each send-to-controller
+          flow x rewrites before / after / on both sides of the TABLE action
+  flowmod flow-mods of every command with a live / stale / bogus / no buffer id against an absent / existing entry
+  multi   action lists that reach the controller MORE THAN ONCE while they run (two output:CONTROLLER with a rewrite in
+          between; output:CONTROLLER then output:TABLE), as a flow's list, as the list of a packet-out with data and as
+          the list that releases a buffer: every packet-in of one list is a buffer of its own
 """
 import struct
 from mc.engine import bfs
@@ -13,6 +28,17 @@ from mc.refs import ofwire as W
 PID = "C18"
 TARGET = 5                      # port that never receives frames; packet-outs go there
 MAC_NEW = bytes.fromhex("02dddddddddd")
+MAC_PRE = bytes.fromhex("02eeeeeeeeee")     # written by a packet-out's action list BEFORE its output:TABLE
+MAC_POST = bytes.fromhex("02cccccccccc")    # written by a packet-out's action list AFTER its output:TABLE (dl_src)
+PROFILES = ("base", "sync", "ports", "table", "flowmod", "multi")
+SYNC = "answer-inside-send"
+# ingress-port config bits under which the statement does not say whether a frame still reaches the controller
+RELAX = W.OFPPC_PORT_DOWN | W.OFPPC_NO_RECV | W.OFPPC_NO_PACKET_IN
+ALL_BITS = (W.OFPPC_PORT_DOWN, W.OFPPC_NO_STP, W.OFPPC_NO_RECV, W.OFPPC_NO_RECV_STP, W.OFPPC_NO_FLOOD, W.OFPPC_NO_FWD,
+            W.OFPPC_NO_PACKET_IN)
+LIMIT = {2: 64, 3: 0, 4: 0xffff}            # max_len of the output:CONTROLLER action of the flow on that port
+TWICE = W.a_output(W.OFPP_CONTROLLER, 64) + W.a_set_dl_src(MAC_POST) + W.a_output(W.OFPP_CONTROLLER, 32)
+FM_CMD = {"add": W.OFPFC_ADD, "mod": W.OFPFC_MODIFY, "mods": W.OFPFC_MODIFY_STRICT, "del": W.OFPFC_DELETE}
 
 
 def frame (port, size, tag):
@@ -25,17 +51,29 @@ def frame (port, size, tag):
   return f + body
 
 
+def tup (x):
+  return tuple(tup(y) for y in x) if isinstance(x, (list, tuple)) else x
+
+
 class World (object):
-  def __init__ (self, pool):
+  def __init__ (self, pool, prof="base", quick=True):
     from mc.env import SwitchStack, VClock
     self.pool = pool
+    self.prof = prof
+    self.quick = quick
     self.st = SwitchStack(dpid=1, ports=5, clock=VClock(), max_buffers=pool, miss_send_len=128)
     self.xid = 100
     self.miss_len = 128
     self.out = {}               # model: outstanding id -> (frame bytes, in_port)
     self.ftag = {}              # frame bytes -> the tag it was built with
     self.last_used = None
+    self.pcfg = {}              # model: port -> config bits set by port-mod
     self.bad = []
+    self.alloc = set()          # frame tags handed out during the running operation
+    self.pending = None         # reaction to deliver inside send() of the next packet-in
+    self.fired = None
+    self.cur = None             # id being released by the running operation
+    self.releasing = 0          # 1 while a reaction is judged that ran inside the release of a (then live) buffer
     # flows sending to the controller
     setup = [
       W.flow_mod(1, W.match_fields(in_port=2), W.OFPFC_ADD, W.a_output(W.OFPP_CONTROLLER, 64)),
@@ -45,11 +83,18 @@ class World (object):
       W.flow_mod(3, W.match_fields(in_port=4), W.OFPFC_ADD, W.a_output(W.OFPP_CONTROLLER, 0xffff)),
       W.features_request(4),
     ]
+    if prof == "multi":
+      # frames of a second ethertype on port 4 go to the controller twice, rewritten in between
+      setup.insert(0, W.flow_mod(5, W.match_fields(in_port=4, dl_type=0x88b6), W.OFPFC_ADD, TWICE, priority=0x9000))
     for m in setup: self.st.feed(m)
     msgs, rest = W.split(self.st.drain())
     fr = [W.decode(m) for m in msgs if m[1] == W.FEATURES_REPLY]
     if len(fr) != 1 or fr[0]["n_buffers"] != pool:
       self.fail("features:n_buffers", "features reply advertises %r buffers, pool is %d" % (fr and fr[0]["n_buffers"], pool))
+    self.hw = dict((p["port_no"], p["hw_addr"]) for p in fr[0]["ports"]) if fr else {}
+    # delivery mode "inside send()": everything the switch writes passes here
+    self._send0 = self.st.worker.send
+    self.st.worker.send = self._send
 
   def fail (self, clause, what):
     self.bad.append(("%s:%s" % (PID, clause), what))
@@ -58,23 +103,51 @@ class World (object):
     self.xid += 1; return self.xid
 
   def free_tag (self):
-    used = set(self.ftag[f[0]] for f in self.out.values())
+    used = set(self.ftag[f[0]] for f in self.out.values()) | self.alloc
     t = 0
     while t in used: t += 1
+    self.alloc.add(t)
     return t
 
+  # ---- the controller that answers inside send() ----------------------------------------------------------------
+  def _send (self, data):
+    self._send0(data)
+    r = self.pending
+    if r is None or len(data) < 8 or data[1] != W.PACKET_IN: return
+    self.pending = None
+    pin = W.decode(bytes(data))
+    k = r[1] if len(r) > 1 else None
+    if k == "new":
+      if pin["buffer_id"] == W.NO_BUFFER: return      # nothing was announced: the reaction does not exist
+      r = (r[0], pin["buffer_id"])
+    elif k == "cur":
+      r = (r[0], self.cur)
+    # what the running operation produced so far stays its own; the reaction's output is collected apart
+    stash = (self.st.drain(), self.st.take_out())
+    obs = self.stim(r)
+    self.st.worker.send_buf = stash[0]
+    self.st.out = stash[1]
+    self.fired = (r, obs)
+
   # ---- operations --------------------------------------------------------
-  def ops (self):
-    o = [("rx", 1, 60), ("rx", 1, 200), ("rx", 2, 200), ("rx", 3, 100), ("rx", 4, 200)]
+  def cand (self):
     ids = sorted(self.out)
     cand = list(ids)
     for k in (self.last_used, 0, self.pool + 1, 999):
       if k is not None and k not in cand: cand.append(k)
+    return ids, cand
+
+  def ops (self):
+    return getattr(self, "ops_" + self.prof)()
+
+  def ops_base (self):
+    o = [("rx", 1, 60), ("rx", 1, 200), ("rx", 2, 200), ("rx", 3, 100), ("rx", 4, 200)]
+    ids, cand = self.cand()
     for k in cand:
       o.append(("pout", k)); o.append(("fmod", k))
     for k in ids:
       # release a live buffer through FLOOD (the stored ingress port must be excluded) and through
-      # output:CONTROLLER (the release itself buffers the packet again while the old slot is still held)
+      # output:CONTROLLER (the release itself buffers the packet again)
       o.append(("poutf", k)); o.append(("poutc", k))
       # MODIFY / MODIFY_STRICT carrying a buffer: applies to the packet whether it modified an entry or acted as ADD
       o.append(("fmodm", k)); o.append(("fmods", k))
@@ -88,55 +161,141 @@ class World (object):
     o.append(("poutt", "dl")); o.append(("poutt", "vlan"))
     return o
 
-  def apply (self, op):
-    self.bad = []
+  def ops_sync (self):
+    q = self.quick
+    pin_ops = [("rx", 1, 200), ("rx", 2, 200), ("rx", 3, 100), ("poutt", "dl")]
+    if not q: pin_ops += [("rx", 4, 200), ("poutt", "vlan"), ("ptab", 3, "both")]
+    ids = sorted(self.out)
+    old = list(ids[:1] if q else ids)
+    if self.last_used is not None and self.last_used not in old: old.append(self.last_used)
+    react = [("pout", "new"), ("fmod", "new"), ("poutc", "new"), ("poutd", "new"), ("inject",)]
+    if not q: react += [("poutf", "new"), ("fmodm", "new"), ("poutv", "new")]
+    react += [("pout", k) for k in old]
+    o = [("rx", 1, 200), ("rx", 2, 200), ("rx", 3, 100)]
+    for p in pin_ops:
+      for r in react: o.append(("sync", p, r))
+    rel = [("pout", "cur"), ("fmod", "cur"), ("poutc", "cur"), ("poutd", "cur"), ("pout", "new"), ("poutc", "new"), ("inject",)]
+    for k in ids:
+      o.append(("pout", k)); o.append(("poutc", k))
+      for r in rel: o.append(("sync", ("poutc", k), r))
+    if self.last_used is not None and self.last_used not in ids: o.append(("pout", self.last_used))
+    return o
+
+  def ops_ports (self):
+    q = self.quick
+    bits = (W.OFPPC_NO_PACKET_IN, W.OFPPC_NO_RECV, W.OFPPC_NO_FWD) if q else ALL_BITS
+    o = []
+    for port in ((1, 2) if q else (1, 2, 3)):
+      for v in (0,) + tuple(bits):
+        if self.pcfg.get(port, 0) != v: o.append(("pmod", port, v))
+    o += [("rx", 1, 200), ("rx", 2, 200)]
+    if not q: o += [("rx", 3, 100)]
+    o += [("poutt", "dl"), ("ptab", 2, "T")]
+    ids, cand = self.cand()
+    for k in ids:
+      o.append(("pout", k)); o.append(("poutc", k))
+    if self.last_used is not None and self.last_used not in ids: o.append(("pout", self.last_used))
+    return o
+
+  def ops_table (self):
+    o = [("rx", 1, 200)]
+    for port in (1, 2, 3, 4):
+      for shape in ("T", "pre", "post", "both"):
+        o.append(("ptab", port, shape))
+    ids, cand = self.cand()
+    for k in ids:
+      o.append(("pout", k))
+      if not self.quick: o.append(("fmod", k)); o.append(("poutc", k))
+    if self.last_used is not None and self.last_used not in ids: o.append(("pout", self.last_used))
+    return o
+
+  def ops_flowmod (self):
+    o = [("rx", 1, 200), ("rx", 2, 200)]
+    ids, cand = self.cand()
+    for k in cand:
+      if k in (self.pool + 1,) and self.quick: continue
+      o.append(("pout", k))
+      for c in ("add", "mod", "mods"): o.append(("fm", c, k))
+    for c in ("add", "mod", "mods", "del"): o.append(("fm", c, None))
+    return o
+
+  def ops_multi (self):
+    o = [("rx", 1, 200), ("rx", 2, 200), ("rx2c",), ("inject2",)]
+    ids, cand = self.cand()
+    for k in ids:
+      o.append(("pout", k)); o.append(("poutc", k)); o.append(("poutcc", k)); o.append(("poutct", k))
+      if not self.quick: o.append(("fmodcc", k))
+    if self.last_used is not None and self.last_used not in ids: o.append(("pout", self.last_used))
+    return o
+
+  def table_pins (self, f, inp):
+    """the packet-ins the table produces for frame f arriving on (or resubmitted with) port inp: (frame, port, reason, limit)"""
+    if inp == 1: return [(f, 1, W.OFPR_NO_MATCH, self.miss_len)]
+    if inp == 4 and f[12:14] == b"\x88\xb6" and self.prof == "multi":
+      return [(f, 4, W.OFPR_ACTION, 64), (f[:6] + MAC_POST + f[12:], 4, W.OFPR_ACTION, 32)]
+    return [(f, inp, W.OFPR_ACTION, LIMIT[inp])]
+
+  def several (self, pins, specs, what, clause="rx:packet-in-count"):
+    """the packet-ins of ONE action list, in order; each is judged (and its id noted) before the next"""
+    if len(pins) != len(specs):
+      self.fail(clause, "%s produced %d packet-ins, expected %d" % (what, len(pins), len(specs)))
+      return (len(pins),)
+    r = []
+    for p, (f, port, reason, limit) in zip(pins, specs):
+      self.tag_as(f, specs[0][0])
+      self.packet_in(p, f, port, reason, limit)
+      r.append((p["buffer_id"] != W.NO_BUFFER, len(p["data"])))
+    return tuple(r)
+
+  def tag_as (self, g, f):
+    if g not in self.ftag: self.ftag[g] = self.ftag[f]
+
+  # ---- stimulus: calls into pox, returns what the switch did -------------------------------------------------------
+  def collect (self, **kw):
+    emitted = self.st.take_out()
+    msgs, rest = W.split(self.st.drain())
+    ds = [W.decode(m) for m in msgs]
+    return dict(kw, emitted=emitted, ds=ds, pins=[d for d in ds if d["type"] == W.PACKET_IN],
+                errors=[d for d in ds if d["type"] == W.ERROR])
+
+  def stim (self, op):
     kind = op[0]
     st = self.st
+    if kind == "sync":
+      self.pending = op[2]; self.fired = None
+      if op[1][0] == "poutc": self.cur = op[1][1]
+      obs = self.stim(op[1])
+      obs["fired"] = self.fired
+      self.pending = None; self.fired = None; self.cur = None
+      return obs
     if kind == "cfg":
-      st.feed(W.set_config(self.nxid(), 0, op[1])); self.miss_len = op[1]
-      out = st.drain()
-      if out: self.fail("cfg:unexpected-output", "set-config produced output")
-      return ("cfg",)
+      st.feed(W.set_config(self.nxid(), 0, op[1]))
+      return self.collect()
+    if kind == "pmod":
+      st.feed(W.port_mod(self.nxid(), op[1], self.hw.get(op[1], b"\0" * 6), op[2], 0x7f))
+      return self.collect()
     if kind == "rx":
       _, port, size = op
       tag = self.free_tag()
       f = frame(port, size, tag); self.ftag[f] = tag
       st.rx(f, port)
-      msgs, rest = W.split(st.drain())
-      ds = [W.decode(m) for m in msgs]
-      pins = [d for d in ds if d["type"] == W.PACKET_IN]
-      emitted = st.take_out()
-      if len(pins) != 1:
-        self.fail("rx:packet-in-count", "frame on port %d produced %d packet-ins" % (port, len(pins))); return ("rx", len(pins))
-      p = pins[0]
-      limit = {1: self.miss_len, 2: 64, 3: 0, 4: 0xffff}[port]
-      reason = W.OFPR_NO_MATCH if port == 1 else W.OFPR_ACTION
-      if p["in_port"] != port or p["reason"] != reason:
-        self.fail("rx:packet-in-fields", "packet-in in_port/reason %r/%r, expected %r/%r" % (p["in_port"], p["reason"], port, reason))
-      if p["total_len"] != len(f):
-        self.fail("rx:total-len", "packet-in total_len %d, the frame has %d bytes (data %d bytes, %s)"
-                  % (p["total_len"], len(f), len(p["data"]), "buffered" if p["buffer_id"] != W.NO_BUFFER else "unbuffered"))
-      if p["buffer_id"] == W.NO_BUFFER:
-        if len(self.out) < self.pool:
-          self.fail("rx:not-buffered", "packet-in without a buffer id although %d of %d buffers are free" % (self.pool - len(self.out), self.pool))
-        if p["data"] != f:
-          self.fail("rx:unbuffered-truncated", "unbuffered packet-in carries %d of %d bytes" % (len(p["data"]), len(f)))
-      else:
-        bid = p["buffer_id"]
-        if bid in self.out:
-          self.fail("rx:duplicate-id", "buffer id %d handed out while still outstanding" % bid)
-        if len(self.out) >= self.pool:
-          self.fail("rx:over-capacity", "buffer id %d handed out with %d outstanding and %d advertised" % (bid, len(self.out), self.pool))
-        if not f.startswith(p["data"]) or len(p["data"]) > limit:
-          self.fail("rx:data-length", "buffered packet-in carries %d bytes (limit %d) / not a prefix of the frame" % (len(p["data"]), limit))
-        self.out[bid] = (f, port)
-      if port == 3:
-        # (the rewritten copy's bytes beyond the destination address are C12's business)
-        if [(a, b[:6], len(b)) for a, b in emitted] != [(TARGET, MAC_NEW, len(f))]:
-          self.fail("rx:action-list-output", "flow [controller, set_dl_dst, set_nw_tos, set_tp_dst, output] emitted %r" % ([(a, b[:8].hex()) for a, b in emitted],))
-      elif emitted:
-        self.fail("rx:unexpected-emission", "frame sent to the controller was also emitted on %r" % [a for a, b in emitted])
-      return ("rx", p["buffer_id"] != W.NO_BUFFER, len(p["data"]))
+      return self.collect(f=f)
+    if kind == "rx2c":
+      tag = self.free_tag()
+      f = frame(4, 200, tag); f = f[:12] + b"\x88\xb6" + f[14:]; self.ftag[f] = tag
+      st.rx(f, 4)
+      return self.collect(f=f)
+    if kind == "inject2":
+      tag = self.free_tag()
+      f = frame(4, 120, tag); self.ftag[f] = tag
+      st.feed(W.packet_out(self.nxid(), TWICE, f, in_port=4))
+      return self.collect(f=f)
+    if kind == "inject":
+      # a packet-out carrying a frame and sending it to the controller: allocates a buffer
+      tag = self.free_tag()
+      f = frame(4, 120, tag); self.ftag[f] = tag
+      st.feed(W.packet_out(self.nxid(), W.a_output(W.OFPP_CONTROLLER, 64), f, in_port=4))
+      return self.collect(f=f)
     if kind == "poutt":
       tag = self.free_tag()
       f = frame(1, 200, tag)
@@ -146,65 +305,229 @@ class World (object):
         acts = W.a_set_vlan_vid(5); g = f[:12] + b"\x81\x00\x00\x05" + f[12:]
       self.ftag[g] = tag
       st.feed(W.packet_out(self.nxid(), acts + W.a_output(W.OFPP_TABLE), f, in_port=1))
-      emitted = st.take_out()
-      msgs, rest = W.split(st.drain())
-      ds = [W.decode(m) for m in msgs]
-      pins = [d for d in ds if d["type"] == W.PACKET_IN]
-      if emitted: self.fail("rx:unexpected-emission", "a packet-out resubmitted to an empty-handed table emitted frames on %r" % [a for a, b in emitted])
-      if len(pins) != 1 or any(d["type"] == W.ERROR for d in ds):
-        self.fail("rx:packet-in-count", "packet-out [rewrite, output:TABLE] that misses produced %d packet-ins / %d errors"
-                  % (len(pins), len([d for d in ds if d["type"] == W.ERROR]))); return ("poutt", len(pins))
-      p = pins[0]
-      if p["in_port"] != 1 or p["reason"] != W.OFPR_NO_MATCH:
-        self.fail("rx:packet-in-fields", "packet-in in_port/reason %r/%r, expected 1/no-match" % (p["in_port"], p["reason"]))
-      if p["total_len"] != len(g):
-        self.fail("rx:total-len", "packet-in total_len %d, the resubmitted (rewritten) frame has %d bytes" % (p["total_len"], len(g)))
-      if p["buffer_id"] == W.NO_BUFFER:
-        if len(self.out) < self.pool:
-          self.fail("rx:not-buffered", "packet-in without a buffer id although %d of %d buffers are free" % (self.pool - len(self.out), self.pool))
-        if p["data"] != g:
-          self.fail("rx:unbuffered-truncated", "unbuffered packet-in carries %d bytes that are not the %d-byte rewritten frame" % (len(p["data"]), len(g)))
-      else:
-        bid = p["buffer_id"]
-        if bid in self.out: self.fail("rx:duplicate-id", "buffer id %d handed out while still outstanding" % bid)
-        if len(self.out) >= self.pool:
-          self.fail("rx:over-capacity", "buffer id %d handed out with %d outstanding and %d advertised" % (bid, len(self.out), self.pool))
-        if not g.startswith(p["data"]) or len(p["data"]) > self.miss_len:
-          self.fail("rx:data-length", "buffered packet-in carries %d bytes (limit %d) / not a prefix of the rewritten frame" % (len(p["data"]), self.miss_len))
-        self.out[bid] = (g, 1)
-      return ("poutt", p["buffer_id"] != W.NO_BUFFER, len(p["data"]))
+      return self.collect(f=f, g=g)
+    if kind == "ptab":
+      _, port, shape = op
+      tag = self.free_tag()
+      f = frame(port, 100 if port == 3 else 200, tag)
+      g = f; acts = b""
+      if shape in ("pre", "both"):
+        acts += W.a_set_dl_dst(MAC_PRE); g = MAC_PRE + f[6:]
+      acts += W.a_output(W.OFPP_TABLE)
+      if shape in ("post", "both"):
+        acts += W.a_set_dl_src(MAC_POST) + W.a_output(TARGET)
+      self.ftag[g] = tag
+      st.feed(W.packet_out(self.nxid(), acts, f, in_port=port))
+      return self.collect(f=f, g=g)
+    if kind == "fm":
+      _, c, k = op
+      st.feed(W.flow_mod(self.nxid(), W.match_fields(in_port=TARGET, dl_type=0x9999), FM_CMD[c],
+                         b"" if c == "del" else W.a_output(TARGET), buffer_id=W.NO_BUFFER if k is None else k))
+      return self.collect()
     # buffer use
     k = op[1]
     if kind == "poutd":
       st.feed(W.packet_out(self.nxid(), b"", b"", buffer_id=k, in_port=W.OFPP_NONE))
-      emitted = st.take_out()
-      msgs, rest = W.split(st.drain())
-      if emitted or msgs:
-        self.fail("use:drop-not-silent", "packet-out (buffer %d, no actions) emitted %d frames / %d messages" % (k, len(emitted), len(msgs)))
+    elif kind == "poutv":
+      st.feed(W.packet_out(self.nxid(), W.a_output(TARGET) + W.a_vendor(0x2320, b"\0\0\0\0"), b"", buffer_id=k, in_port=W.OFPP_NONE))
+    elif kind in ("poutf", "poutc"):
+      acts = W.a_output(W.OFPP_FLOOD) if kind == "poutf" else W.a_output(W.OFPP_CONTROLLER, 64)
+      st.feed(W.packet_out(self.nxid(), acts, b"", buffer_id=k, in_port=W.OFPP_NONE))
+    elif kind == "pout":
+      st.feed(W.packet_out(self.nxid(), W.a_output(TARGET), b"", buffer_id=k, in_port=W.OFPP_NONE))
+    elif kind == "poutcc":
+      st.feed(W.packet_out(self.nxid(), TWICE, b"", buffer_id=k, in_port=W.OFPP_NONE))
+    elif kind == "poutct":
+      st.feed(W.packet_out(self.nxid(), W.a_output(W.OFPP_CONTROLLER, 64) + W.a_output(W.OFPP_TABLE), b"", buffer_id=k, in_port=W.OFPP_NONE))
+    elif kind == "fmodcc":
+      st.feed(W.flow_mod(self.nxid(), W.match_fields(in_port=TARGET, dl_type=0x9999), W.OFPFC_ADD, TWICE, buffer_id=k))
+    else:
+      cmd = {"fmod": W.OFPFC_ADD, "fmodm": W.OFPFC_MODIFY, "fmods": W.OFPFC_MODIFY_STRICT}[kind]
+      st.feed(W.flow_mod(self.nxid(), W.match_fields(in_port=TARGET, dl_type=0x9999), cmd, W.a_output(TARGET), buffer_id=k))
+    return self.collect()
+
+  # ---- oracle: the sequential reference ---------------------------------------------------------------------------
+  def apply (self, op):
+    self.bad = []
+    self.alloc = set()
+    obs = self.stim(op)
+    if op[0] != "sync":
+      return self.judge(op, obs)
+    live = op[1][0] == "poutc" and op[1][1] in self.out
+    out = self.judge(op[1], obs)
+    fired = obs.get("fired")
+    if fired is None:
+      return ("sync", out, None)
+    # the reaction was handled after the packet-in had been sent: judged as the next operation of the history.  (If
+    # that packet-in came from the release of a buffer, the release was still running: its slot may or may not count
+    # as free for what the reaction allocates.)
+    self.releasing = 1 if live else 0
+    out2 = self.judge(fired[0], fired[1])
+    self.releasing = 0
+    self.bad = [("%s:%s" % (k, SYNC), "(the controller's %r was handled inside the send() of the packet-in of %r) %s"
+                 % (fired[0], op[1], what)) for k, what in self.bad]
+    return ("sync", out, out2)
+
+  def packet_in (self, p, f, port, reason, limit, what="frame", fields="rx:packet-in-fields", held=None):
+    """p announces frame f (received on `port`): check it against the statement and note the id.  `held` = number of
+    buffers that may count as occupied (differs from the outstanding ids only while one of them is being released)."""
+    if held is None: held = len(self.out) + self.releasing
+    if fields == "rx:packet-in-fields":
+      if p["in_port"] != port or p["reason"] != reason:
+        self.fail(fields, "packet-in in_port/reason %r/%r, expected %r/%r" % (p["in_port"], p["reason"], port, reason))
+      if p["total_len"] != len(f):
+        self.fail("rx:total-len", "packet-in total_len %d, the %s has %d bytes (data %d bytes, %s)"
+                  % (p["total_len"], what, len(f), len(p["data"]), "buffered" if p["buffer_id"] != W.NO_BUFFER else "unbuffered"))
+    elif p["in_port"] != port or p["reason"] != reason or p["total_len"] != len(f):
+      self.fail(fields, "packet-in for the re-sent buffer: in_port %r reason %r total_len %r, expected %r/%r/%r"
+                % (p["in_port"], p["reason"], p["total_len"], port, reason, len(f)))
+    if p["buffer_id"] == W.NO_BUFFER:
+      if held < self.pool:
+        self.fail("rx:not-buffered", "packet-in without a buffer id although %d of %d buffers are free" % (self.pool - held, self.pool))
+      if p["data"] != f:
+        self.fail("rx:unbuffered-truncated", "unbuffered packet-in carries %d bytes that are not the %d-byte %s" % (len(p["data"]), len(f), what))
+      return None
+    bid = p["buffer_id"]
+    if bid in self.out:
+      self.fail("rx:duplicate-id", "buffer id %d handed out while still outstanding" % bid)
+    if len(self.out) >= self.pool:
+      self.fail("rx:over-capacity", "buffer id %d handed out with %d outstanding and %d advertised" % (bid, len(self.out), self.pool))
+    if not f.startswith(p["data"]) or len(p["data"]) > limit:
+      self.fail("rx:data-length", "buffered packet-in carries %d bytes (limit %d) / not a prefix of the %s" % (len(p["data"]), limit, what))
+    self.out[bid] = (f, port)
+    return bid
+
+  def judge (self, op, obs):
+    kind = op[0]
+    emitted, ds, pins = obs["emitted"], obs["ds"], obs["pins"]
+    if kind == "cfg":
+      self.miss_len = op[1]
+      if ds or emitted: self.fail("cfg:unexpected-output", "set-config produced output")
+      return ("cfg",)
+    if kind == "pmod":
+      self.pcfg[op[1]] = op[2]
+      if emitted or pins or obs["errors"]:
+        self.fail("cfg:unexpected-output", "port-mod produced %d frames / %d packet-ins / %d errors" % (len(emitted), len(pins), len(obs["errors"])))
+      return ("pmod",)
+    if kind == "rx":
+      _, port, size = op
+      f = obs["f"]
+      relax = self.pcfg.get(port, 0) & RELAX
+      if relax and not pins:
+        # the statement does not say whether a frame from such a port reaches the controller; if it does not, nothing
+        # may have been stored for it either (the pool is compared with the ids after every operation)
+        return ("rx-quiet", len(emitted))
+      if len(pins) != 1:
+        self.fail("rx:packet-in-count", "frame on port %d produced %d packet-ins" % (port, len(pins))); return ("rx", len(pins))
+      p = pins[0]
+      limit = self.miss_len if port == 1 else LIMIT[port]
+      reason = W.OFPR_NO_MATCH if port == 1 else W.OFPR_ACTION
+      self.packet_in(p, f, port, reason, limit)
+      if port == 3:
+        # (the rewritten copy's bytes beyond the destination address are C12's business)
+        if [(a, b[:6], len(b)) for a, b in emitted] != [(TARGET, MAC_NEW, len(f))] and not relax:
+          self.fail("rx:action-list-output", "flow [controller, set_dl_dst, set_nw_tos, set_tp_dst, output] emitted %r" % ([(a, b[:8].hex()) for a, b in emitted],))
+      elif emitted:
+        self.fail("rx:unexpected-emission", "frame sent to the controller was also emitted on %r" % [a for a, b in emitted])
+      return ("rx", p["buffer_id"] != W.NO_BUFFER, len(p["data"]))
+    if kind == "rx2c":
+      if emitted: self.fail("rx:unexpected-emission", "frame sent to the controller was also emitted on %r" % [a for a, b in emitted])
+      return ("rx2c",) + self.several(pins, self.table_pins(obs["f"], 4), "a frame hitting a flow [output:CONTROLLER, set_dl_src, output:CONTROLLER]")
+    if kind == "inject2":
+      f = obs["f"]
+      if emitted: self.fail("rx:unexpected-emission", "packet-out [output:CONTROLLER, set_dl_src, output:CONTROLLER] emitted frames on %r" % [a for a, b in emitted])
+      if obs["errors"]: self.fail("rx:packet-in-count", "packet-out (data) [output:CONTROLLER, set_dl_src, output:CONTROLLER] was answered with an error")
+      return ("inject2",) + self.several(pins, [(f, 4, W.OFPR_ACTION, 64), (f[:6] + MAC_POST + f[12:], 4, W.OFPR_ACTION, 32)],
+                                         "packet-out (data) [output:CONTROLLER, set_dl_src, output:CONTROLLER]")
+    if kind == "inject":
+      f = obs["f"]
+      if emitted: self.fail("rx:unexpected-emission", "packet-out [output:CONTROLLER] emitted frames on %r" % [a for a, b in emitted])
+      if len(pins) != 1 or obs["errors"]:
+        self.fail("rx:packet-in-count", "packet-out (data) [output:CONTROLLER] produced %d packet-ins / %d errors" % (len(pins), len(obs["errors"])))
+        return ("inject", len(pins))
+      p = pins[0]
+      self.packet_in(p, f, 4, W.OFPR_ACTION, 64)
+      return ("inject", p["buffer_id"] != W.NO_BUFFER, len(p["data"]))
+    if kind == "poutt":
+      g = obs["g"]
+      relax = self.pcfg.get(1, 0) & RELAX
+      if emitted: self.fail("rx:unexpected-emission", "a packet-out resubmitted to an empty-handed table emitted frames on %r" % [a for a, b in emitted])
+      if relax and not pins and not obs["errors"]: return ("poutt-quiet",)
+      if len(pins) != 1 or obs["errors"]:
+        self.fail("rx:packet-in-count", "packet-out [rewrite, output:TABLE] that misses produced %d packet-ins / %d errors"
+                  % (len(pins), len(obs["errors"]))); return ("poutt", len(pins))
+      p = pins[0]
+      self.packet_in(p, g, 1, W.OFPR_NO_MATCH, self.miss_len, what="resubmitted (rewritten) frame")
+      return ("poutt", p["buffer_id"] != W.NO_BUFFER, len(p["data"]))
+    if kind == "ptab":
+      _, port, shape = op
+      g = obs["g"]
+      relax = self.pcfg.get(port, 0) & RELAX
+      # frames: the flow on port 3 emits its rewritten copy; the rest of the packet-out's list emits the packet as the
+      # packet-out's own actions left it (what the table did to its copy does not show, and the other way round)
+      want = []
+      if port == 3: want.append((TARGET, MAC_NEW + g[6:12], len(g)))
+      if shape in ("post", "both"): want.append((TARGET, g[:6] + MAC_POST, len(g)))
+      got = [(a, b[:12], len(b)) for a, b in emitted]
+      if relax and port == 3 and got == want[1:]: want = want[1:]
+      if got != want:
+        self.fail("table:emission", "packet-out (in_port %d) [%soutput:TABLE%s] emitted %r, expected %r"
+                  % (port, "set_dl_dst, " if shape in ("pre", "both") else "", ", set_dl_src, output" if shape in ("post", "both") else "",
+                     [(a, b.hex(), n) for a, b, n in got], [(a, b.hex(), n) for a, b, n in want]))
+      if relax and not pins and not obs["errors"]: return ("ptab-quiet", len(emitted))
+      if len(pins) != 1 or obs["errors"]:
+        self.fail("rx:packet-in-count", "packet-out (in_port %d) through output:TABLE produced %d packet-ins / %d errors"
+                  % (port, len(pins), len(obs["errors"]))); return ("ptab", len(pins))
+      p = pins[0]
+      limit = self.miss_len if port == 1 else LIMIT[port]
+      reason = W.OFPR_NO_MATCH if port == 1 else W.OFPR_ACTION
+      self.packet_in(p, g, port, reason, limit, what="resubmitted frame")
+      return ("ptab", p["buffer_id"] != W.NO_BUFFER, len(p["data"]))
+    if kind == "fm":
+      _, c, k = op
+      if k is None:
+        if emitted or pins or obs["errors"]:
+          self.fail("use:flow-mod-without-buffer", "flow-mod (%s) naming no buffer emitted %d frames / %d packet-ins / %d errors"
+                    % (c, len(emitted), len(pins), len(obs["errors"])))
+        return ("fm", c)
+      return self.judge_use("fmod", k, obs)
+    # buffer use
+    k = op[1]
+    if k not in self.out:
+      # unknown or already used: whatever the action list, nothing comes out (on a port or towards the controller)
+      if emitted or pins:
+        self.fail("use:stale-id-emits", "%s with unknown/used buffer id %r emitted %d frame(s) / %d packet-in(s)" % (kind, k, len(emitted), len(pins)))
+      return ("use-bogus", kind, len(obs["errors"]))
+    if kind == "poutd":
+      if emitted or ds:
+        self.fail("use:drop-not-silent", "packet-out (buffer %d, no actions) emitted %d frames / %d messages" % (k, len(emitted), len(ds)))
       self.out.pop(k); self.last_used = k
       return ("use-drop",)
     if kind == "poutv":
       f, inp = self.out[k]
-      st.feed(W.packet_out(self.nxid(), W.a_output(TARGET) + W.a_vendor(0x2320, b"\0\0\0\0"), b"", buffer_id=k, in_port=W.OFPP_NONE))
-      emitted = st.take_out()
-      msgs, rest = W.split(st.drain())
-      ds = [W.decode(m) for m in msgs]
-      if not any(d["type"] == W.ERROR and d["etype"] == W.OFPET_BAD_ACTION for d in ds):
+      if not any(d["etype"] == W.OFPET_BAD_ACTION for d in obs["errors"]):
         self.fail("use:vendor-action-not-refused", "an action list with an unknown vendor action was not answered with a bad-action error")
       if emitted not in ([], [(TARGET, f)]):
         self.fail("use:wrong-frame", "refused action list on buffer %d emitted %r" % (k, [(a, len(b)) for a, b in emitted]))
       self.out.pop(k); self.last_used = k
       return ("use-refused", len(emitted))
+    if kind in ("poutcc", "poutct", "fmodcc"):
+      # a releasing list that reaches the controller twice: id k is used; each packet-in is a buffer of its own (the
+      # slot of k may or may not count as free while the list runs)
+      f, inp = self.out[k]
+      if obs["errors"]: self.fail("use:error-for-live-id", "%s with live buffer %d was answered with an error" % (kind, k))
+      if emitted: self.fail("use:unexpected-emission", "releasing a buffer to the controller emitted frames on %r" % [p for p, _ in emitted])
+      self.out.pop(k); self.last_used = k
+      if kind == "poutct": specs = [(f, inp, W.OFPR_ACTION, 64)] + self.table_pins(f, inp)
+      else: specs = [(f, inp, W.OFPR_ACTION, 64), (f[:6] + MAC_POST + f[12:], inp, W.OFPR_ACTION, 32)]
+      self.releasing += 1
+      r = self.several(pins, specs, "releasing buffer %d through %s" % (k, kind), clause="use:packet-in-count")
+      self.releasing -= 1
+      return ("use-ctl2", kind) + r
     if kind in ("poutf", "poutc"):
       f, inp = self.out[k]
-      acts = W.a_output(W.OFPP_FLOOD) if kind == "poutf" else W.a_output(W.OFPP_CONTROLLER, 64)
-      st.feed(W.packet_out(self.nxid(), acts, b"", buffer_id=k, in_port=W.OFPP_NONE))
-      emitted = st.take_out()
-      msgs, rest = W.split(st.drain())
-      ds = [W.decode(m) for m in msgs]
-      if any(d["type"] == W.ERROR for d in ds):
+      if obs["errors"]:
         self.fail("use:error-for-live-id", "%s with live buffer %d was answered with an error" % (kind, k))
-      pins = [d for d in ds if d["type"] == W.PACKET_IN]
       if kind == "poutf":
         want = [(p, f) for p in range(1, 6) if p != inp]
         if sorted(emitted) != sorted(want):
@@ -213,78 +536,88 @@ class World (object):
         if pins: self.fail("use:packet-in", "releasing a buffer with FLOOD produced a packet-in")
         self.out.pop(k); self.last_used = k
         return ("use-flood", len(emitted))
-      # output:CONTROLLER from a buffered packet: a new packet-in for the same frame; slot k is still held while the
-      # action runs, so the new id (if any slot is free) differs from k and from every outstanding id
+      # output:CONTROLLER from a buffered packet: a new packet-in for the same frame.  The message has used id k; whether
+      # slot k counts as free while its own release runs is the implementation's choice (both answers are accepted),
+      # but the new id must differ from every OTHER outstanding id
       if emitted: self.fail("use:unexpected-emission", "releasing a buffer to the controller emitted frames on %r" % [p for p, _ in emitted])
+      held = len(self.out) + self.releasing
+      self.out.pop(k); self.last_used = k
+      if self.pcfg.get(inp, 0) & RELAX and not pins: return ("use-ctl-quiet",)
       if len(pins) != 1:
         self.fail("use:packet-in-count", "releasing buffer %d to the controller produced %d packet-ins" % (k, len(pins)))
-        self.out.pop(k); self.last_used = k
         return ("use-ctl", len(pins))
       p = pins[0]
-      if p["in_port"] != inp or p["reason"] != W.OFPR_ACTION or p["total_len"] != len(f):
-        self.fail("use:packet-in-fields", "packet-in for the re-sent buffer: in_port %r reason %r total_len %r, expected %r/%r/%r"
-                  % (p["in_port"], p["reason"], p["total_len"], inp, W.OFPR_ACTION, len(f)))
-      if p["buffer_id"] == W.NO_BUFFER:
-        if len(self.out) < self.pool:
-          self.fail("rx:not-buffered", "re-sent packet not buffered although %d of %d buffers are free" % (self.pool - len(self.out), self.pool))
-        if p["data"] != f: self.fail("rx:unbuffered-truncated", "unbuffered packet-in carries %d of %d bytes" % (len(p["data"]), len(f)))
-        self.out.pop(k)
-      else:
-        nb = p["buffer_id"]
-        if nb in self.out:
-          self.fail("rx:duplicate-id", "buffer id %d handed out while still outstanding (during the release of buffer %d)" % (nb, k))
-        if not f.startswith(p["data"]) or len(p["data"]) > 64:
-          self.fail("rx:data-length", "buffered packet-in carries %d bytes (limit 64) / not a prefix of the frame" % len(p["data"]))
-        self.out.pop(k)
-        self.out[nb] = (f, inp)
-      self.last_used = k
+      self.packet_in(p, f, inp, W.OFPR_ACTION, 64, fields="use:packet-in-fields", held=held)
       return ("use-ctl", p["buffer_id"] != W.NO_BUFFER)
-    if kind == "pout":
-      st.feed(W.packet_out(self.nxid(), W.a_output(TARGET), b"", buffer_id=k, in_port=W.OFPP_NONE))
-    else:
-      cmd = {"fmod": W.OFPFC_ADD, "fmodm": W.OFPFC_MODIFY, "fmods": W.OFPFC_MODIFY_STRICT}[kind]
-      st.feed(W.flow_mod(self.nxid(), W.match_fields(in_port=TARGET, dl_type=0x9999), cmd, W.a_output(TARGET), buffer_id=k))
-    emitted = st.take_out()
-    msgs, rest = W.split(st.drain())
-    ds = [W.decode(m) for m in msgs]
-    if any(d["type"] == W.PACKET_IN for d in ds):
+    return self.judge_use(kind, k, obs)
+
+  def judge_use (self, kind, k, obs):
+    emitted, pins = obs["emitted"], obs["pins"]
+    if k not in self.out:
+      if emitted or pins:
+        self.fail("use:stale-id-emits", "%s with unknown/used buffer id %r emitted %d frame(s) / %d packet-in(s)" % (kind, k, len(emitted), len(pins)))
+      return ("use-bogus", kind, len(obs["errors"]))
+    if pins:
       self.fail("use:packet-in", "using a buffer produced a packet-in")
-    if k in self.out:
-      f, inp = self.out.pop(k)
-      self.last_used = k
-      if emitted != [(TARGET, f)]:
-        if len(emitted) == 1 and emitted[0][0] == TARGET:
-          self.fail("use:wrong-frame", "%s with buffer %d emitted a frame that is not the stored one (stored dst %s, emitted dst %s, same tail %s)"
-                    % (kind, k, f[:6].hex(), emitted[0][1][:6].hex(), emitted[0][1][6:] == f[6:]))
-        else:
-          self.fail("use:emission-count", "%s with live buffer %d emitted %d frames" % (kind, k, len(emitted)))
-      if any(d["type"] == W.ERROR for d in ds):
-        self.fail("use:error-for-live-id", "%s with live buffer %d was answered with an error" % (kind, k))
-      return ("use-live", kind)
-    else:
-      if emitted:
-        self.fail("use:stale-id-emits", "%s with unknown/used buffer id %d emitted %d frame(s)" % (kind, k, len(emitted)))
-      return ("use-bogus", kind, len([d for d in ds if d["type"] == W.ERROR]))
+    f, inp = self.out.pop(k)
+    self.last_used = k
+    if emitted != [(TARGET, f)]:
+      if len(emitted) == 1 and emitted[0][0] == TARGET:
+        self.fail("use:wrong-frame", "%s with buffer %d emitted a frame that is not the stored one (stored dst %s, emitted dst %s, same tail %s)"
+                  % (kind, k, f[:6].hex(), emitted[0][1][:6].hex(), emitted[0][1][6:] == f[6:]))
+      else:
+        self.fail("use:emission-count", "%s with live buffer %d emitted %d frames" % (kind, k, len(emitted)))
+    if obs["errors"]:
+      self.fail("use:error-for-live-id", "%s with live buffer %d was answered with an error" % (kind, k))
+    return ("use-live", kind)
 
   def key (self):
-    real = tuple(None if x is None else (digest(x[0].pack()), x[1]) for x in self.st.sw._packet_buffer)
-    return (self.pool, sorted((k, digest(v[0]), v[1]) for k, v in self.out.items()), self.miss_len,
-            self.last_used, real, self.st.sw.miss_send_len, len(self.st.sw.table))
+    sw = self.st.sw
+    real = tuple(None if x is None else (digest(x[0].pack()), x[1]) for x in sw._packet_buffer)
+    k = (self.pool, sorted((k, digest(v[0]), v[1]) for k, v in self.out.items()), self.miss_len,
+         self.last_used, real, sw.miss_send_len, len(sw.table))
+    if self.prof == "ports":
+      k += (tuple(sorted((no, p.config) for no, p in sw.ports.items() if p.config)), tuple(sorted(x for x in self.pcfg.items() if x[1])))
+    if self.prof == "flowmod":
+      # (what the entries remember of the flow-mods that made them)
+      k += (tuple((getattr(e, "buffer_id", None), digest(repr(e.actions))) for e in sw.table.entries),)
+    return k
 
 
-def make_expand (pool):
+def depth_of (cfg, prof, pool):
+  if prof == "base":
+    d = cfg.pick(6, 8)
+    return d if pool <= 2 else d - 1
+  d = cfg.pick(dict(sync=4, ports=5, table=4, flowmod=4, multi=5)[prof], dict(sync=5, ports=5, table=6, flowmod=6, multi=6)[prof])
+  return d if pool <= 2 else d - 1
+
+
+def pools_of (cfg, prof):
+  if prof == "base": return cfg.pick([0, 1, 2, 3], [0, 1, 2, 3, 4])
+  return cfg.pick([0, 1, 2], [0, 1, 2, 3])
+
+
+def make_expand (pool, prof="base", quick=True):
   def expand (h):
-    w = World(pool)
+    w = World(pool, prof, quick)
     out = None
     bad0 = list(w.bad)
     for op in h:
       out = w.apply(op)
     bad = w.bad if h else bad0
-    # invariant on the real object: never more stored packets than advertised
-    stored = sum(1 for x in w.st.sw._packet_buffer if x is not None)
+    # invariants on the real object: never more stored packets than advertised; the occupied slots are exactly the ids
+    # the controller holds (a packet stored under an id nobody was given can never be released: the pool stays short
+    # of its advertised size for good; an id the controller holds with nothing behind it cannot be used)
+    slots = w.st.sw._packet_buffer
+    stored = sum(1 for x in slots if x is not None)
     if stored > pool:
       bad.append(("%s:invariant:over-capacity" % PID, "%d packets stored, %d buffers advertised" % (stored, pool)))
-    return dict(key=w.key(), ops=w.ops(), bad=bad, out=out)
+    held = sorted(i + 1 for i, x in enumerate(slots) if x is not None)
+    if not bad and held != sorted(w.out):
+      bad.append(("%s:invariant:stored-differs-from-ids-given" % PID,
+                  "after %r the switch stores packets under ids %r, the ids given to the controller and not yet used are %r"
+                  % (h[-1] if h else None, held, sorted(w.out))))
+    return dict(key=w.key(), ops=w.ops(), bad=bad, out=out, replay_extra=dict(profile=prof, pool=pool))
   return expand
 
 
@@ -292,19 +625,26 @@ def run (cfg):
   from mc.env import boot
   boot()
   rep = Report(PID, "model_checking")
-  pools = cfg.pick([0, 1, 2, 3], [0, 1, 2, 3, 4])
-  depth = cfg.pick(6, 8)
-  rep.rule = ("breadth-first search over all histories of <=%d operations {frame miss 60/200 B, frame hitting output:CONTROLLER "
+  profs = [p for p in PROFILES if not cfg.only or cfg.only == p]
+  rep.rule = ("breadth-first search, one per (pool size, profile), over all histories of operations up to the profile's depth.  base: {frame miss 60/200 B, frame hitting output:CONTROLLER "
               "flows with max_len 64 / 0 (an IPv4/UDP frame; + set_dl_dst, set_nw_tos, set_tp_dst, output) / 0xffff, packet_out(buffer k) and flow_mod ADD (buffer k) for every "
-              "outstanding id, the last used id, 0, pool+1 and 999, release of every outstanding id through FLOOD, output:CONTROLLER, flow_mod MODIFY and MODIFY_STRICT, set_config(miss_send_len in {0,64,128,0xffff})} for pool sizes %r; "
-              "canonical state = model + the switch's real buffer slots, config and table size; distinct = (last op, observation)"
-              % (depth, pools))
-  rep.bound = dict(depth=depth, pools=pools)
+              "outstanding id, the last used id, 0, pool+1 and 999, release of every outstanding id through FLOOD, output:CONTROLLER, flow_mod MODIFY and MODIFY_STRICT, a refused list, an empty list, "
+              "packet-out [rewrite, output:TABLE] missing, set_config(miss_send_len in {0,64,128,0xffff})}.  sync: every packet-in-producing operation (frames, TABLE miss, release to the controller) x "
+              "every reaction {packet_out / flow_mod / release-to-controller / drop naming the id just announced, the id being released, an older id; packet-out(data)[output:CONTROLLER]} "
+              "delivered by the connection INSIDE the send() of the packet-in.  ports: port-mod setting one config bit on an ingress port x frames, TABLE resubmission, releases.  "
+              "table: packet-out(data, in_port 1..4) [rewrite?, output:TABLE, (rewrite, output)?] missing / hitting each send-to-controller flow.  flowmod: ADD/MODIFY/MODIFY_STRICT/DELETE with live/stale/bogus/no buffer id.  "
+              "multi: action lists reaching the controller twice ([output:CONTROLLER, set_dl_src, output:CONTROLLER], [output:CONTROLLER, output:TABLE]) as a flow's list, a packet-out's list and a buffer-releasing list.  "
+              "canonical state = model + the switch's real buffer slots, config, port config and table; distinct = (last op, observation)")
+  rep.bound = dict((p, dict(pools=pools_of(cfg, p), depth=[depth_of(cfg, p, n) for n in pools_of(cfg, p)])) for p in profs)
   rep.assumptions = ["frames use an ethertype without a parser so POX carries the payload opaquely",
-                     "state key contains the whole buffer pool, config and the model, so merged states have equal futures"]
-  for pool in pools:
-    bfs(make_expand(pool), depth if pool <= 2 else depth - 1, rep, workers=cfg.workers, seed=cfg.seed,
-        max_states=cfg.pick(60000, 600000))
+                     "state key contains the whole buffer pool, config and the model, so merged states have equal futures",
+                     "a reaction delivered inside send() is judged as the operation that follows the one whose packet-in it answers (sequential reference)",
+                     "for a frame from an ingress port configured PORT_DOWN / NO_RECV / NO_PACKET_IN the oracle accepts both a packet-in and none",
+                     "while an action list that releases buffer k runs, slot k may or may not count as free (both accepted); the ids it hands out must differ from every other outstanding id"]
+  for prof in profs:
+    for pool in pools_of(cfg, prof):
+      bfs(make_expand(pool, prof, cfg.quick), depth_of(cfg, prof, pool), rep, workers=cfg.workers, seed=cfg.seed,
+          max_states=cfg.pick(60000, 600000))
   return rep
 
 
@@ -312,15 +652,23 @@ def replay (cfg, data):
   from mc.env import boot
   boot()
   lines = []
-  for pool in ([0, 1, 2, 3, 4]):
-    w = World(pool)
-    try:
-      for op in data["history"]:
-        op = tuple(op)
-        if op not in w.ops(): raise KeyError(op)
-        out = w.apply(op)
-        lines.append("pool=%d %r -> %r %s" % (pool, op, out, w.bad))
-      if w.bad: return True, "\n".join(lines)
-    except KeyError:
-      lines.append("pool=%d: history not enabled" % pool)
+  hist = [tup(op) for op in data["history"]]
+  profs = [data["profile"]] if data.get("profile") in PROFILES else PROFILES
+  pools = [data["pool"]] if "pool" in data else [0, 1, 2, 3, 4]
+  for prof in profs:
+    for quick in (True, False):
+      for pool in pools:
+        ex = make_expand(pool, prof, quick)
+        w = World(pool, prof, quick)
+        try:
+          for i, op in enumerate(hist):
+            if op not in w.ops(): raise KeyError(op)
+            out = w.apply(op)
+            lines.append("%s pool=%d %r -> %r %s" % (prof, pool, op, out, w.bad))
+          r = ex(tuple(hist))
+          if r["bad"]:
+            lines.append("%s pool=%d: %r" % (prof, pool, r["bad"]))
+            return True, "\n".join(lines)
+        except KeyError:
+          lines.append("%s pool=%d: history not enabled" % (prof, pool))
   return False, "\n".join(lines)
